@@ -196,23 +196,7 @@ def run(ctx):
         for name, vals in cls.class_assigns.items():
             if not any(is_container_expr(ctx, v, cls.module) for v in vals):
                 continue
-            writers, readers = [], []
-            for f in prog.functions.values():
-                for n in own_nodes(f.node):
-                    if isinstance(n, ast.Attribute) and n.attr == name:
-                        ks = ctx.res.kinds(n.value, f)
-                        if any(k[0] in ("inst", "class") and cls in prog.mro(k[1]) for k in ks):
-                            par = prog.parent.get(n)
-                            mut = isinstance(par, ast.Subscript) and isinstance(par.ctx, (ast.Store, ast.Del)) or \
-                                (isinstance(par, ast.Attribute) and par.attr in ("append", "extend", "add", "update", "setdefault", "pop", "clear"))
-                            (writers if mut else readers).append((f, [n]) if mut else f)
-            # instance attribute of the same name assigned in __init__ shadows the class-level container
-            shadowed = any(name in {t.attr for m in c.methods.values() for nn in own_nodes(m.node) if isinstance(nn, ast.Assign)
-                                    for t in nn.targets if isinstance(t, ast.Attribute) and isinstance(t.value, ast.Name) and t.value.id == m.self_name}
-                           for c in prog.subclasses(cls))
-            if writers and not shadowed:
-                n_slots += 1
-                container_slot(ctx, "class-level container %s.%s" % (cls.qual, name), name, writers, readers, cls.module)
+            n_slots += shared_class_container(ctx, cls, name)
     # ---------------------------------------------------------------- global rebinding
     for f in prog.functions.values():
         for n in own_nodes(f.node):
@@ -293,6 +277,94 @@ def decorator_instance(ctx, f, cls, site):
         ctx.holds("C09.3", f, "%s caches a function without file-system / clock / environment dependence" % cls.name, "@%s %s" % (cls.name, f.name))
 
 
+def shared_class_container(ctx, cls, name):
+    """A container assigned in the class body: one object shared by every instance for the life of the process.
+
+    Instance attributes bound to it without copying (self.y = self.name) are aliases; writes through any alias persist.
+    Returns 1 if a slot was judged, 0 if the container is never mutated (a constant table)."""
+    prog = ctx.prog
+    fam = [c for c in prog.subclasses(cls)]
+    aliases = {name}
+    methods = [m for c in fam for m in c.methods.values()]
+    changed = True
+    while changed:
+        changed = False
+        for m in methods:
+            if not m.self_name:
+                continue
+            for n in own_nodes(m.node):
+                if isinstance(n, ast.Assign) and len(n.targets) == 1 and isinstance(n.targets[0], ast.Attribute) and isinstance(n.targets[0].value, ast.Name) \
+                        and n.targets[0].value.id == m.self_name and isinstance(n.value, ast.Attribute) and n.value.attr in aliases and n.targets[0].attr not in aliases:
+                    ks = ctx.res.kinds(n.value.value, m)
+                    if any(k[0] in ("inst", "class") for k in ks):
+                        aliases.add(n.targets[0].attr)
+                        changed = True
+    # shadowing: an instance attribute of the same name assigned a fresh container in __init__ hides the class-level one
+    fresh = set()
+    for m in methods:
+        if m.name != "__init__" or not m.self_name:
+            continue
+        for n in own_nodes(m.node):
+            if isinstance(n, ast.Assign) and len(n.targets) == 1 and isinstance(n.targets[0], ast.Attribute) and n.targets[0].attr == name \
+                    and isinstance(n.targets[0].value, ast.Name) and n.targets[0].value.id == m.self_name and is_container_expr(ctx, n.value, m.module):
+                fresh.add(m.cls)
+    writes, reads = [], []
+    for m in methods:
+        if not m.self_name:
+            continue
+        g = None
+        for n in own_nodes(m.node):
+            if not (isinstance(n, ast.Attribute) and n.attr in aliases and isinstance(n.value, ast.Name) and n.value.id == m.self_name):
+                continue
+            if n.attr == name and m.cls in fresh:
+                continue
+            par = prog.parent.get(n)
+            if isinstance(n.ctx, ast.Store):
+                continue
+            key = None
+            mut = False
+            if isinstance(par, ast.Subscript) and par.value is n and isinstance(par.ctx, (ast.Store, ast.Del)):
+                mut, key = True, const_str(par.slice)
+            elif isinstance(par, ast.Attribute) and par.attr in ("update", "setdefault", "append", "extend", "add", "pop", "clear", "insert", "remove", "discard", "appendleft"):
+                call = prog.parent.get(par)
+                if isinstance(call, ast.Call) and call.func is par:
+                    mut = True
+                    if par.attr == "update" and not call.args and call.keywords and all(kw.arg for kw in call.keywords):
+                        key = tuple(kw.arg for kw in call.keywords)
+                    elif par.attr == "setdefault" and call.args:
+                        key = const_str(call.args[0])
+            elif isinstance(par, ast.AugAssign) and par.target is n:
+                mut = True
+            if mut:
+                g = g or C.cfg_of(m)
+                node = C.stmt_node(ctx, m, n)
+                uncond = m.name == "__init__" and node is not None and g.dominates(node, g.exit)
+                keys = key if isinstance(key, tuple) else ((key,) if key else (None,))
+                for k in keys:
+                    writes.append((m, n, k, uncond))
+            else:
+                # an alias assignment is not a read of the content
+                if isinstance(par, ast.Assign) and par.value is n and isinstance(par.targets[0], ast.Attribute) and par.targets[0].attr in aliases:
+                    continue
+                reads.append((m, n))
+    if not writes:
+        return 0
+    label = "class-level container %s.%s%s" % (cls.qual, name, (" (aliased as %s)" % ", ".join("self." + a for a in sorted(aliases - {name}))) if len(aliases) > 1 else "")
+    init_keys = {k for (m, n, k, u) in writes if u and k is not None}
+    persistent = [(m, n, k) for (m, n, k, u) in writes if not (u and k is not None) and (k is None or k not in init_keys)]
+    if not reads:
+        ctx.holds("C09.2", writes[0][0], "%s is written by operations but never read" % label, label)
+        return 1
+    if persistent:
+        m, n, k = persistent[0]
+        rm, rn = reads[0]
+        ctx.violated("C09.2", m, "%s is one object for the whole process; %s written in %s is not re-initialised unconditionally by the constructor, so what one operation stores there is read by the next (%s in %s)" % (
+            label, ("key %r" % k) if k is not None else "content", m.qualname, norm(prog.enclosing_stmt(rn))[:60], rm.qualname), prog.enclosing_stmt(n))
+    else:
+        ctx.holds("C09.2", writes[0][0], "%s: every key written (%s) is re-initialised unconditionally in the constructor before use" % (label, sorted(init_keys)), label)
+    return 1
+
+
 def container_slot(ctx, label, name, writers, readers, mod):
     fw = writers[0][0]
     back = None
@@ -318,7 +390,32 @@ def container_slot(ctx, label, name, writers, readers, mod):
         ctx.violated("C09.3", g, "%s is filled during one operation and %s serves results from it; what it stores depends on %s (%s), so later operations in the process see stale state" % (
             label, g.qualname, e.kind, norm(e.site)[:50]), label, path=C.chain_text(ch, e.fn))
     else:
-        ctx.holds("C09.3", g, "%s caches values that depend on nothing outside the arguments" % label, label)
+        # a pure table is unobservable only if what is read back is selected by the caller's argument, not by how far
+        # earlier calls happened to fill it
+        hit = back[1]
+        par = ctx.prog.parent.get(hit)
+        params = set(g.all_params())
+        keyed = False
+        why = "the table is returned / used as a whole"
+        if isinstance(par, ast.Subscript) and par.value is hit:
+            names = set()
+            work = [par.slice]
+            seen = set()
+            while work:
+                e = work.pop()
+                for x in ast.walk(e):
+                    if isinstance(x, ast.Name) and x.id not in seen:
+                        seen.add(x.id)
+                        names.add(x.id)
+                        for what, payload in ctx.res.bindings(g).get(x.id, []):
+                            if what == "value":
+                                work.append(payload)
+            keyed = bool(names & params)
+            why = "it is read at position %s, which does not depend on the function's argument" % norm(par.slice)
+        if keyed:
+            ctx.holds("C09.3", g, "%s is a table keyed by the caller's argument holding argument-only values: unobservable" % label, label)
+        else:
+            ctx.violated("C09.3", g, "%s is extended by earlier operations and %s reads it back into its result, but %s: the result depends on what the process did before" % (label, g.qualname, why), label)
 
 
 def class_slot(ctx, attr, writes):
